@@ -21,8 +21,8 @@ namespace
   const double LEN[] = {3e5, 5e4};
   const double THICK[] = {1e5, 1e3};
   // coordinate settings: 0 cartesian; 1..3 spherical at latitude 0, 60, 85; 4 spherical trench across the dateline;
-  // 5 spherical trench along a meridian from latitude 40 to 70; 6 along a meridian from latitude 0 to 85
-  const int NSET = 7, NSHAPE = 4;
+  // 5 spherical trench along a meridian from latitude 40 to 70; 6 along a meridian from latitude 0 to 85; 7 along the meridian -179, dipping west across the date line
+  const int NSET = 8, NSHAPE = 4;
   const std::vector<uint64_t> LINE_RADIX = {2 /*slab,fault*/, NSET, NSHAPE, 7, 3, 2, 2, 2 /*thickness pair variant*/, 2 /*first segment is an arc from the dip to 180 - dip (through the vertical)*/, 2 /*second segment keeps the dip of the first (one plane down to the tip)*/};
 
   struct Line { bool fault; int setting, shape; double dip, mind, len, thick; bool thick_grows; bool arc_through_vertical; bool one_plane; };
@@ -52,6 +52,7 @@ namespace
     if (setting == 0) return {false, 0, 0, 1e5, 0, 0, 1e5};
     if (setting == 5) return {true, 20, 55, 0, 10, 0.9/std::cos(55*PI/180), 0};          // meridional trench, latitude 40..70
     if (setting == 6) return {true, 20, 42.5, 0, 85.0/3.0, 0.9/std::cos(42.5*PI/180), 0};  // meridional trench, latitude 0..85
+    if (setting == 7) return {true, -179, 10, 0, 10, 0.9/std::cos(10*PI/180), 0};          // meridional trench at longitude -179 dipping west: the body and its box reach below -180, queries arrive with positive longitudes
     const double lat = setting == 1 ? 0 : setting == 2 ? 60 : setting == 3 ? 85 : 10;
     const double lon = setting == 4 ? 180 : 20;
     // 1 local unit ~ 100 km: 0.9 degree of latitude, 0.9/cos(lat) degree of longitude
@@ -282,7 +283,7 @@ int main(int argc, char **argv)
   Spec spec;
   spec.property = "C07";
   spec.level = "exploration";
-  spec.rule = "line suite: slabs and faults from the product {slab,fault} x 7 coordinate settings (cartesian; spherical at latitude 0, 60, 85; trench across the dateline; meridional trenches spanning latitude 40..70 and 0..85) x 4 trench shapes x 7 dips x "
+  spec.rule = "line suite: slabs and faults from the product {slab,fault} x 8 coordinate settings (cartesian; spherical at latitude 0, 60, 85; trench across the dateline; meridional trenches spanning latitude 40..70 and 0..85; a meridional trench at longitude -179 dipping west across the date line) x 4 trench shapes x 7 dips x "
               "3 min depths x 2 lengths x 2 thicknesses x {constant, growing thickness} (quick: all tuples within 3 deviations of the default; thorough: full product), each built twice in one process - "
               "culling bounds as computed and made infinite through the GWB_VERIF switch - and compared bit-for-bit on a 25x25x13 lattice reaching 3(length+thickness) around the trench and below the "
               "deepest possible point; surface suite: every value-point layout (3 base polygons x every subset of <= 2|3 of 7 extra points x 5 coordinate flavours) - local_value against a full "
@@ -312,7 +313,7 @@ int main(int argc, char **argv)
       // a growing thickness already implies a second segment that keeps the dip
       tuples->erase(std::remove_if(tuples->begin(), tuples->end(), [](const std::vector<unsigned> &d) { return d[7] == 1 && d[9] == 1; }), tuples->end());
       Suite a; a.name = "line"; a.n = tuples->size(); a.run = [tuples](uint64_t i, Ctx &c) { run_line(tuples, i, c); };
-      a.bound = std::string(th ? "full product" : "all tuples within 3 deviations of the default") + " over radices (feature 2, coordinate setting 7, trench shape 4, dip 7, min depth 3, length 2, thickness 2, thickness growth 2, arc through the vertical 2, one plane 2; quick adds 24 shallow thin one-plane bodies under bent traces): " + std::to_string(tuples->size()) + " twin pairs";
+      a.bound = std::string(th ? "full product" : "all tuples within 3 deviations of the default") + " over radices (feature 2, coordinate setting 8, trench shape 4, dip 7, min depth 3, length 2, thickness 2, thickness growth 2, arc through the vertical 2, one plane 2; quick adds 24 shallow thin one-plane bodies under bent traces): " + std::to_string(tuples->size()) + " twin pairs";
       s.push_back(a);
     }
     {
